@@ -869,6 +869,8 @@ pub struct Roll {
     pub window: usize,
     /// two-series drivers: the second series has `len + other_delta` items (clamped at 0)
     pub other_delta: i64,
+    /// caller-buffer scenarios: the buffer has `len + buf_delta` slots (clamped at 0)
+    pub buf_delta: i64,
     pub out: Container,
 }
 
@@ -928,6 +930,7 @@ impl Program {
                 ("driver", J::Int(r.driver as i64)),
                 ("window", J::Int(r.window as i64)),
                 ("other_delta", J::Int(r.other_delta)),
+                ("buf_delta", J::Int(r.buf_delta)),
                 ("out", J::s(r.out.name())),
             ]),
         }
@@ -984,6 +987,7 @@ impl Program {
                 driver: j.req("driver")?.as_i64()? as u8,
                 window: j.req("window")?.as_usize()?,
                 other_delta: j.get("other_delta").map(|v| v.as_i64()).transpose()?.unwrap_or(0),
+                buf_delta: j.get("buf_delta").map(|v| v.as_i64()).transpose()?.unwrap_or(0),
                 out: Container::parse(j.req("out")?.as_str()?)?,
             })),
             "typed" => Ok(Program::Typed(crate::typed::Typed::from_j(j)?)),
